@@ -111,6 +111,30 @@ fn check_case(case: &Case, st: &mut Stats) -> Result<(), String> {
             continue;
         }
         let q = match kind % 4 {
+            0 if w[4] < 0.4 => {
+                // corner wedge: close to a corner and close to one of its two edges, inside the cell (where
+                // the lookup's probe search works hardest)
+                let a = pent[i];
+                let nb = pent[(i + 1) % n];
+                let pv = pent[(i + n - 1) % n];
+                let base = (nb[1] - a[1]).atan2(nb[0] - a[0]);
+                let other = (pv[1] - a[1]).atan2(pv[0] - a[0]);
+                let mut interior = other - base;
+                if ccw {
+                    while interior <= 0.0 {
+                        interior += std::f64::consts::TAU;
+                    }
+                } else {
+                    while interior >= 0.0 {
+                        interior -= std::f64::consts::TAU;
+                    }
+                }
+                let f = 10f64.powf(-3.5 + 2.7 * u1);
+                let frac = if w[3] < 0.5 { f } else { 1.0 - f };
+                let rho = 10f64.powf(-2.3 + 1.3 * u2) * size;
+                let ang = base + interior * frac;
+                [a[0] + rho * ang.cos(), a[1] + rho * ang.sin()]
+            }
             0 => {
                 let s: f64 = w.iter().take(n).map(|x| x + 1e-6).sum();
                 let mut q = [0.0, 0.0];
@@ -137,7 +161,7 @@ fn check_case(case: &Case, st: &mut Stats) -> Result<(), String> {
             }
         };
         let margin = convex_signed_dist(&pent, q);
-        let kind_name = ["convex-combination", "1e-4-from-a-corner", "just-inside-an-edge"][*kind as usize % 4];
+        let kind_name = if kind % 4 == 0 && w[4] < 0.4 { "corner-wedge" } else { ["convex-combination", "1e-4-from-a-corner", "just-inside-an-edge"][*kind as usize % 4] };
         if margin < contain::STRICT {
             st.hit(&format!("in-rounding-band(counted, not asserted):{}", kind_name));
             continue;
